@@ -7,11 +7,11 @@ import simnet
 def run(chk):
     quick = chk.tier == "quick"
     chk.rule = ("sequential scripts over 3-4 whole networks on the fabric (keep-alive 1 s, idle timeout 10 s; in 30% of the scripts the idle timeout is left unset in the supplied QuicConfig, so the transport default of 30 s is in force, keep-alive 5 s, quiet periods 36 s): dials, disconnects, restarts with the same key and address, "
-                "long-polling calls that stay in a remote handler for the rest of the script (so later closes, restarts and losses find work in flight), partitions with operations under the cut, healing, quiet periods of 13 s (36 s); dial results at every dial, listings and pairwise RPC reachability at every quiet "
+                "connections ended by their dialer the moment the dial returns, long-polling calls that stay in a remote handler for the rest of the script (so later closes, restarts and losses find work in flight), partitions with operations under the cut, healing, quiet periods of 13 s (36 s); dial results at every dial, listings and pairwise RPC reachability at every quiet "
                 "period and the per-node event streams are compared with NetModel.v / checked by model-independent monitors; distinct = scenario; non-trivial = all")
     if not chk.prepare():
         return
-    w = dict(fault=0.25, restart=0.08, known=0.05, pin=0.05, default_idle=0.3, inflight=0.12)
+    w = dict(fault=0.25, restart=0.08, known=0.05, pin=0.05, default_idle=0.3, inflight=0.12, quickclose=0.1)
     simnet.run_netscripts(chk, 24 if quick else 300, [3, 4], lambda r: r.randrange(4, 10), w, "fabric:faults")
     chk.assumptions += ["quinn's idle timeout, keep-alive and close propagation (transport hypothesis of NetModel.Quiesce / Disconnect)",
                         "operations do not overlap (each is followed by a settle time); overlapping dials are C05's subject"]
